@@ -312,3 +312,28 @@ PROPS = {
         ],
     },
 }
+
+# Dimensions added to the generators after the seeded-mutation rounds 2-5 (see DESIGN.md 8.7); appended to the rule texts.
+RULE_ADDENDA = {
+    "C01": "Also generated: hook answers carrying a status stanza / own annotations / echoed observed annotations; discovery order; debug-verbosity logging; a matching orphan appearing under a replicated child name; scale-to-zero, foreign re-creation, scale back.",
+    "C02": "Also generated: desired children carrying a plain owner or a foreign controller reference; an edit of the parent selector (hook following) between syncs; writes to objects the same sync released are judged separately from the known ownership-transfer finding.",
+    "C03": "Also generated: an ignored spec.selector on parents of generateSelector controllers; hook-set annotations; discovery order.",
+    "C04": "Also generated: the parent replaced by an object with another selector; an owned child relabelled; a co-owner reference added to the object of a chosen request right before it.",
+    "C06": "Also generated: desired children with a status stanza, hook-set annotations or an explicitly empty list; an injected name-keyed list entry; someone already setting the field (and value) the hook is about to add; debug-verbosity logging.",
+    "C07": "Also generated: hooks without any status; mixed matchLabels/matchExpressions selectors; condition styles of healthy children (timestamps with and without zone, a malformed neighbour condition).",
+    "C08": "Also generated: a second rolling kind whose children share the names of the first (liveness rules only); mixed selectors; observedGeneration and condition styles.",
+    "C09": "Also generated: hook failure for the latest revision's call only / for superseded revisions' calls only (no write may follow); the parent deleted mid-rollout under a finalize hook that keeps the children; the not-ahead rule is judged at every sync boundary.",
+    "C10": "Also generated: 404 and conflict-on-every-retry on the finalizer write; a foreign finalizer holding the parent; selectors rendered as matchExpressions.",
+    "C11": "Also generated: sync answers that say finalized; discovery order (status subresource listed before the resource).",
+    "C12": "Also generated: plain 404 at every request; scenarios whose faulted sync is the finalize or finalizer-removal sync of a deleted parent; a customize hook whose calls are faulted too, with the related map after recovery compared; a 404 on a read of the parent must lead to a retry or to all non-parent work being done.",
+    "C13": "Also generated: per-field lists of type-correct but unusable values (selectors that cannot be converted, impossible names, versions, resources); after a customize attack related add/update/delete events are delivered to the handlers.",
+    "C14": "Also generated: selectors rendered as matchExpressions.",
+    "C15": "Also generated: empty / expression-only selectors in invalid mixes; selectors that cannot be converted; parents deleted and held by the finalizer.",
+    "C16": "Also generated: target deletion, target replacement and a stale target cache between syncs; selectors as matchExpressions; empty-string patch values; every target write is judged on the live object before/after it (UID, spec, foreign metadata).",
+    "C17": "The concurrent-vs-sequential comparison includes the related-informer subscription counts.",
+    "C18": "Also generated: failed subscribes to a resource discovery does not know yet (installed later); a handler still replaying while an object appears; widgets subscribed through a second served version with the delivered apiVersion checked; handlers with their own resync take 3 ms per event; every informer call runs under a 10 s watchdog.",
+    "C19": "Single calls also vary what the cache was warmed with (well-formed, unknown field, duplicate field).",
+    "C20": "Also generated: a customize hook that names related resources, with the related LIST or the customize webhook hanging while the controller is stopped.",
+}
+for _k, _v in RULE_ADDENDA.items():
+    PROPS[_k]["rule"] = PROPS[_k]["rule"] + " " + _v
